@@ -155,7 +155,8 @@ type StepObs struct {
 	Recov  string   `json:"recov,omitempty"` // restart / recovery attempt: "ok" | "refused"
 	BlkErr string   `json:"blk_err,omitempty"`
 	// l2reorg: the reorg was applied. It is NOT applied (a no-op step) when it would drop a block that a certificate which is
-	// not InError covers, or a block at or below StartL2Block: the properties say nothing about such histories
+	// not InError covers, or a block at or below StartL2Block, or when no block at or above StartL2Block would remain (the
+	// blocks that follow are numbered from the last remaining one): the properties say nothing about such histories
 	Applied bool `json:"applied,omitempty"`
 }
 type Out struct {
@@ -528,6 +529,18 @@ func run(in In, n int) (out Out) {
 			if b <= m.FromBlock+uint64(m.Offset) {
 				return false
 			}
+		}
+		// the blocks generated after the reorg are numbered from the last block that remains: that one must not be below
+		// StartL2Block, or a block at or below it would gain deposits that the configured start exit root does not contain
+		// (an inconsistent configuration, not a history the properties speak about)
+		var lastKept uint64
+		for _, x := range dcs {
+			if x.num < b {
+				lastKept = x.num
+			}
+		}
+		if lastKept < in.StartBlock {
+			return false
 		}
 		if err := bridgesync.VerifReorg(ctx, bs, b); err != nil {
 			panic(err)
